@@ -1,2 +1,2 @@
-CONSTANTS Names = {"A", "B"} Vals = {"ref", "empty", "v0", "v1", "v2", "txt", "hostile1", "hostile2", "hostile3"} MaxLines = 14 MaxDepth = 3 ExprDepth = 2 AllowBare = FALSE StaleGroup = FALSE AtomKinds = {"def", "defsp", "cmp", "lit"} RelSet = {"==", "<", "!="}
+CONSTANTS Names = {"A", "B"} Vals = {"ref", "empty", "v0", "v1", "v2", "txt", "hostile1", "hostile2", "hostile3", "fn"} MaxLines = 14 MaxDepth = 3 ExprDepth = 2 AllowBare = FALSE StaleGroup = FALSE AtomKinds = {"def", "defsp", "cmp", "lit"} RelSet = {"==", "<", "!="}
 SPECIFICATION Spec
